@@ -4,6 +4,7 @@ import (
 	"fmt"
 	"io"
 	"log"
+	"math"
 	"strconv"
 	"time"
 
@@ -36,7 +37,12 @@ func (t *JSONFormatter) Write(values []octosql.Value) error {
 		}
 		t.buf = AppendJSONString(t.buf, t.fields[i].Name)
 		t.buf = append(t.buf, ':')
-		t.buf = ValueToJson(t.buf, t.fields[i].Type, values[i])
+		var err error
+		t.buf, err = ValueToJson(t.buf, t.fields[i].Type, values[i])
+		if err != nil {
+			t.buf = t.buf[:0]
+			return fmt.Errorf("couldn't print field '%s' as JSON: %w", t.fields[i].Name, err)
+		}
 	}
 	t.buf = append(t.buf, '}', '\n')
 	t.w.Write(t.buf)
@@ -45,7 +51,8 @@ func (t *JSONFormatter) Write(values []octosql.Value) error {
 }
 
 // ValueToJson appends the JSON text of the value to dst.
-func ValueToJson(dst []byte, t octosql.Type, value octosql.Value) []byte {
+// JSON has no notation for NaN and the infinities: such a float is an error.
+func ValueToJson(dst []byte, t octosql.Type, value octosql.Value) ([]byte, error) {
 	if t.TypeID == octosql.TypeIDUnion {
 		for i := range t.Union.Alternatives {
 			if t.Union.Alternatives[i].TypeID == value.TypeID {
@@ -53,37 +60,44 @@ func ValueToJson(dst []byte, t octosql.Type, value octosql.Value) []byte {
 			}
 		}
 		log.Printf("Invalid value of type '%s' for union type '%s'. Using null.", value.TypeID.String(), t.String())
-		return append(dst, "null"...)
+		return append(dst, "null"...), nil
 	}
 
 	switch value.TypeID {
 	case octosql.TypeIDNull:
-		return append(dst, "null"...)
+		return append(dst, "null"...), nil
 	case octosql.TypeIDInt:
-		return strconv.AppendInt(dst, int64(value.Int), 10)
+		return strconv.AppendInt(dst, int64(value.Int), 10), nil
 	case octosql.TypeIDFloat:
-		return strconv.AppendFloat(dst, value.Float, 'g', -1, 64)
+		if math.IsNaN(value.Float) || math.IsInf(value.Float, 0) {
+			return dst, fmt.Errorf("the float value %v has no JSON representation", value.Float)
+		}
+		return strconv.AppendFloat(dst, value.Float, 'g', -1, 64), nil
 	case octosql.TypeIDBoolean:
 		if value.Boolean {
-			return append(dst, "true"...)
+			return append(dst, "true"...), nil
 		} else {
-			return append(dst, "false"...)
+			return append(dst, "false"...), nil
 		}
 	case octosql.TypeIDString:
-		return AppendJSONString(dst, value.Str)
+		return AppendJSONString(dst, value.Str), nil
 	case octosql.TypeIDTime:
-		return AppendJSONString(dst, value.Time.Format(time.RFC3339))
+		return AppendJSONString(dst, value.Time.Format(time.RFC3339)), nil
 	case octosql.TypeIDDuration:
-		return AppendJSONString(dst, value.Duration.String())
+		return AppendJSONString(dst, value.Duration.String()), nil
 	case octosql.TypeIDList:
 		dst = append(dst, '[')
 		for i := range value.List {
 			if i > 0 {
 				dst = append(dst, ',')
 			}
-			dst = ValueToJson(dst, *t.List.Element, value.List[i])
+			var err error
+			dst, err = ValueToJson(dst, *t.List.Element, value.List[i])
+			if err != nil {
+				return dst, err
+			}
 		}
-		return append(dst, ']')
+		return append(dst, ']'), nil
 	case octosql.TypeIDStruct:
 		dst = append(dst, '{')
 		for i := range value.Struct {
@@ -92,18 +106,26 @@ func ValueToJson(dst []byte, t octosql.Type, value octosql.Value) []byte {
 			}
 			dst = AppendJSONString(dst, t.Struct.Fields[i].Name)
 			dst = append(dst, ':')
-			dst = ValueToJson(dst, t.Struct.Fields[i].Type, value.Struct[i])
+			var err error
+			dst, err = ValueToJson(dst, t.Struct.Fields[i].Type, value.Struct[i])
+			if err != nil {
+				return dst, err
+			}
 		}
-		return append(dst, '}')
+		return append(dst, '}'), nil
 	case octosql.TypeIDTuple:
 		dst = append(dst, '[')
 		for i := range value.Tuple {
 			if i > 0 {
 				dst = append(dst, ',')
 			}
-			dst = ValueToJson(dst, t.Tuple.Elements[i], value.Tuple[i])
+			var err error
+			dst, err = ValueToJson(dst, t.Tuple.Elements[i], value.Tuple[i])
+			if err != nil {
+				return dst, err
+			}
 		}
-		return append(dst, ']')
+		return append(dst, ']'), nil
 	default:
 		panic(fmt.Sprintf("invalid octosql value type to print: %s", value.TypeID.String()))
 	}
